@@ -114,7 +114,38 @@ def run(tier, seed, replay=None):
                 rep.violation(f"[{cfg}] a well-typed {worst[2]} program ends abnormally: {worst[3][:200]}", e2e.replay_of(worst[0], cfg, worst[1]), tags={"program:abnormal:" + cfg})
     except vlib.BuildFailure as e:
         rep.violation("the solver does not build in a supported configuration", {"kind": "build", "theorem_or_correspondence": "cmake build of /repo", "log": str(e)}, no_input=True)
-    rep.cov.update({"parser": parser, "whole_programs": whole})
+    # the repository's own example problems (the inputs of its solver tests), in a build with assertions on
+    examples = {}
+    try:
+        import re as _re
+        from . import e2e
+        cm = open(vlib.REPO + "/solver/tests/CMakeLists.txt", encoding="utf-8").read()
+        tests = []
+        for m in _re.finditer(r"add_test\(NAME (\S+) COMMAND solver_tests ((?:\"[^\"]+\" ?)+)", cm):
+            files = [f.replace("${CMAKE_SOURCE_DIR}", vlib.REPO) for f in _re.findall(r'"([^"]+)"', m.group(2)) if f.endswith(".rddl")]
+            if files:
+                tests.append((m.group(1), files))
+        texts = []
+        for name, files in tests:
+            texts.append("\n".join(open(f, encoding="utf-8", errors="replace").read() for f in files))
+        lines_ = ["solve " + t.encode("utf-8").hex() for t in texts]
+        examples = {"problems": len(tests), "outcomes": {}}
+        for cfg in (["hadd-dbg-ci"] if tier == "quick" else ["hadd-dbg-ci", "hmax-dbg", "hmax-dbg-ci", "hadd-dbg"]):
+            exe = e2e.harness(cfg)
+            outs, _ = vlib.run_impl_parallel(vlib.impl_cmd(exe, ["60"]), lines_, timeout=3600)
+            st = {}
+            for (name, files), o in zip(tests, outs):
+                v = e2e.verdict(o)
+                k = "budget" if v == "X:HANG" else v.split(":")[0]
+                st[k] = st.get(k, 0) + 1
+                if k == "X" and "reported" not in st:
+                    st["reported"] = name
+                    rep.violation(f"[{cfg}] the repository's example {name} ends abnormally with assertions on: {v[:200]}",
+                                  {"kind": "oracle", "ops": ["solve <" + " + ".join(files) + ">"], "files": files, "impl": [str(o)[:2000]]}, tags={"example:abnormal:" + cfg})
+            examples["outcomes"][cfg] = st
+    except (vlib.BuildFailure, OSError) as e:
+        examples = {"unavailable": str(e)[-300:]}
+    rep.cov.update({"parser": parser, "whole_programs": whole, "repository_examples": examples})
     rep.cov.update({
         "evaluations": r["strings"] + sum(v[0] for v in hist.values()) + parser.get("programs", 0) + sum(sum(x.values()) for x in whole.values()), "distinct_nontrivial": r["distinct"],
         "rule": "byte strings as in C16 (keywords, operators, numerals beyond the integer type, unterminated strings and comments, invalid bytes, truncated and mutated example files, random soups) under a 2 s watchdog, plus the API histories of C07 and C10 replayed with assertions on (sanitizers in the thorough tier); distinct = distinct byte strings",
